@@ -638,7 +638,5 @@ def run(c):
         M.stream_param(c, c.n(80, 1000), tmp)
         M.stream_ids(c, c.n(80, 1000), tmp)
         M.corpus(c, tmp)
-        if not os.environ.get("VERIF_NO_PROBES"):  # development switch only
-            M.probes(c, tmp)
     finally:
         shutil.rmtree(tmp, ignore_errors=True)
